@@ -928,6 +928,24 @@ def step (st : State) (line : String) : State × String :=
   | ["nops"] => (st, s!"ok {st.is.nops0} {st.is.nops1}")
   | _ => (st, "bad-op")
 
-def main : IO Unit := runLoop step init
+/-- the stdin loop; flushes after every line (the program generators talk to a live driver) -/
+partial def ioLoop (h out : IO.FS.Stream) (st : State) : IO Unit := do
+  let line ← h.getLine
+  if line.isEmpty then
+    out.flush
+    return ()
+  let l := line.trimAscii.toString
+  if l.isEmpty || l.startsWith "#" then
+    ioLoop h out st
+  else
+    let (st', o) := step st l
+    out.putStrLn o
+    out.flush
+    ioLoop h out st'
+
+def main : IO Unit := do
+  let stdin ← IO.getStdin
+  let stdout ← IO.getStdout
+  ioLoop stdin stdout init
 
 end Primitiv.Drv.FuncsDrv
